@@ -37,8 +37,11 @@ type Profile struct {
 	MixedEnums                   bool
 	NumericGrid                  bool // numeric constants from a small grid (ties likely)
 	IntOnlyBounds                bool // integer schemas get integral bounds only
+	FractionalIntBounds          bool // integer schemas may state non-integral bounds
 	MinSizedBounds               bool // integer bounds near sized-int limits
 	DefsOnlyPrimitivesAndObjects bool
+	DefWeights                   map[string]int // overrides the kinds of definitions
+	MinDefs                      int
 
 	// Sat reports whether a numeric node admits some value; unsatisfiable draws
 	// are repaired (constraints dropped) unless KeepUnsat.
@@ -284,6 +287,9 @@ func (c *Ctx) numConst(t *rapid.T, kind model.Kind, label string) float64 {
 	p := c.P
 	if p.MinSizedBounds && kind == model.KInteger && rapid.IntRange(0, 9).Draw(t, label+"s") < 6 {
 		return rapid.SampledFrom(sizedLimits).Draw(t, label+"l")
+	}
+	if kind == model.KInteger && p.FractionalIntBounds && !p.AvoidQuiet("ints.fractional_bounds") && rapid.IntRange(0, 5).Draw(t, label+"fr") == 0 {
+		return float64(rapid.IntRange(-20, 20).Draw(t, label+"fi")) + 0.5
 	}
 	if kind == model.KInteger || p.IntOnlyBounds {
 		if p.NumericGrid || rapid.IntRange(0, 2).Draw(t, label+"g") == 0 {
@@ -542,6 +548,12 @@ func (c *Ctx) DefNode(t *rapid.T) *model.Node {
 	if !p.DefsOnlyPrimitivesAndObjects {
 		cs = append(cs, kindChoice{"array", 1}, kindChoice{"boolean", 1})
 	}
+	if p.DefWeights != nil {
+		cs = nil
+		for _, k := range []string{"object", "string", "integer", "number", "enum", "array", "boolean"} {
+			cs = append(cs, kindChoice{k, p.DefWeights[k]})
+		}
+	}
 	switch pick(t, "defkind", cs) {
 	case "object":
 		return c.Object(t, 2)
@@ -565,7 +577,7 @@ func (p *Profile) File(t *rapid.T, relPath string) *model.File {
 	f := &model.File{RelPath: relPath, ID: "https://example.com/" + strings.TrimSuffix(relPath, ".json")}
 	nd := 0
 	if p.MaxDefs > 0 {
-		nd = rapid.IntRange(0, p.MaxDefs).Draw(t, "ndefs")
+		nd = rapid.IntRange(p.MinDefs, p.MaxDefs).Draw(t, "ndefs")
 	}
 	sib := map[string]bool{}
 	for i := 0; i < nd; i++ {
